@@ -173,7 +173,25 @@ fn c02(rng: &mut Rng, out: &mut Out) {
 }
 
 // ---------------------------------------------------------------- C03
+fn c03_int(rng: &mut Rng, out: &mut Out) {
+    for _ in 0..60 { case();
+        let (r, c) = (1 + rng.below(3) as usize, 1 + rng.below(3) as usize);
+        let vals: Vec<Vec<i64>> = (0..r).map(|_| (0..c).map(|_| rng.int(-40, 40)).collect()).collect();
+        let mut m = Matrix::<i64>::new(r, c, 0); for i in 0..r { for j in 0..c { m[(i, j)] = vals[i][j]; } }
+        let k = { let mut k = rng.int(-5, 5); if k == 0 { k = 3; } k };
+        let ctx = format!("M={:?} scalar={}", vals, k);
+        let q1 = &m / k; let q2 = m.clone() / k; let mut q3 = m.clone(); q3 /= k;
+        let p1 = &m * k; let mut p3 = m.clone(); p3 *= k;
+        for i in 0..r { for j in 0..c {
+            if q1[(i, j)] != vals[i][j] / k || q2[(i, j)] != vals[i][j] / k || q3[(i, j)] != vals[i][j] / k { report(out, "C03 integer matrix / scalar is element-wise division in every form", ctx.clone(), format!("({},{}) -> {} {} {}", i, j, q1[(i, j)], q2[(i, j)], q3[(i, j)]), format!("{}", vals[i][j] / k)); }
+            if p1[(i, j)] != vals[i][j] * k || p3[(i, j)] != vals[i][j] * k { report(out, "C03 integer matrix * scalar is element-wise", ctx.clone(), format!("({},{})", i, j), format!("{}", vals[i][j] * k)); }
+        } }
+        let v = Vector::<i64>::create(vals[0].clone()); let vq1 = v.clone() / k; let mut vq2 = v.clone(); vq2 /= k;
+        for j in 0..c { if vq1[j] != vals[0][j] / k || vq2[j] != vals[0][j] / k { report(out, "C03 integer vector / scalar is element-wise division in every form", ctx.clone(), format!("{} {}", vq1[j], vq2[j]), format!("{}", vals[0][j] / k)); } }
+    }
+}
 fn c03(rng: &mut Rng, out: &mut Out) {
+    c03_int(rng, out);
     // products for all shapes up to 4
     for r in 0..4usize { for k in 0..4usize { for c in 0..4usize { case();
         let (a, b) = (rand_m(rng, r, k), rand_m(rng, k, c));
@@ -635,7 +653,26 @@ fn c10(rng: &mut Rng, out: &mut Out) {
 fn pq(rng: &mut Rng, len: usize) -> Vec<Q> { (0..len).map(|_| rng.q()).collect() }
 fn pev(c: &[Q], x: Q) -> Q { c.iter().rev().fold(Q::int(0), |s, a| s * x + *a) }
 fn coeffs_of(p: &Polynomial<Q>) -> Vec<Q> { (0..p.size()).map(|i| p[i]).collect() }
+fn c11_cmplx(rng: &mut Rng, out: &mut Out) {
+    for _ in 0..120 { case();
+        let (la, lb) = (1 + rng.below(5) as usize, 1 + rng.below(5) as usize);
+        let gz = |rng: &mut Rng| Cmplx::new(rng.int(-3, 3) as f64, rng.int(-3, 3) as f64);
+        let a: Vec<Cmplx> = (0..la).map(|_| gz(rng)).collect(); let b: Vec<Cmplx> = (0..lb).map(|_| gz(rng)).collect();
+        let (pa, pb) = (Polynomial::<Cmplx>::new(a.clone()), Polynomial::<Cmplx>::new(b.clone()));
+        let ctx = format!("p={:?} q={:?}", a.iter().map(|z| (z.real, z.imag)).collect::<Vec<_>>(), b.iter().map(|z| (z.real, z.imag)).collect::<Vec<_>>());
+        let mut conv = vec![Cmplx::new(0.0, 0.0); la + lb - 1];
+        for i in 0..la { for j in 0..lb { let (x, y) = (a[i], b[j]); conv[i + j] = Cmplx::new(conv[i + j].real + x.real * y.real - x.imag * y.imag, conv[i + j].imag + x.real * y.imag + x.imag * y.real); } }
+        match quiet(|| &pa * &pb) { Ok(pr) => { let bad = pr.size() != conv.len() || (0..conv.len()).any(|k| pr[k].real != conv[k].real || pr[k].imag != conv[k].imag);
+                if bad { report(out, "C11 complex polynomial product is the convolution of the coefficients", ctx.clone(), format!("{:?}", (0..pr.size()).map(|k| (pr[k].real, pr[k].imag)).collect::<Vec<_>>()), format!("{:?}", conv.iter().map(|z| (z.real, z.imag)).collect::<Vec<_>>())); } }
+            Err(e) => report(out, "C11 complex polynomial product panicked", ctx.clone(), e, "a product".into()) }
+        let z = gz(rng); let mut hv = Cmplx::new(0.0, 0.0); for k in (0..la).rev() { hv = Cmplx::new(hv.real * z.real - hv.imag * z.imag + a[k].real, hv.real * z.imag + hv.imag * z.real + a[k].imag); }
+        let ev = pa.eval(z); if ev.real != hv.real || ev.imag != hv.imag { report(out, "C11 complex evaluation is Horner's rule", format!("{} z=({}, {})", ctx, z.real, z.imag), format!("({}, {})", ev.real, ev.imag), format!("({}, {})", hv.real, hv.imag)); }
+        let sm = &pa + &pb; for k in 0..la.max(lb) { let e = Cmplx::new(if k < la { a[k].real } else { 0.0 } + if k < lb { b[k].real } else { 0.0 }, if k < la { a[k].imag } else { 0.0 } + if k < lb { b[k].imag } else { 0.0 });
+            if sm.size() != la.max(lb) || sm[k].real != e.real || sm[k].imag != e.imag { report(out, "C11 complex polynomial sum is termwise and keeps the larger size", ctx.clone(), format!("size {}", sm.size()), format!("size {}", la.max(lb))); break; } }
+    }
+}
 fn c11(rng: &mut Rng, out: &mut Out) {
+    c11_cmplx(rng, out);
     for _ in 0..300 { case();
         let (la, lb) = (rng.below(10) as usize, rng.below(10) as usize);      // lengths 0..9: degrees up to 8 and the empty polynomial
         let (a, b) = (pq(rng, la), pq(rng, lb));
@@ -802,7 +839,14 @@ fn c15(rng: &mut Rng, out: &mut Out) {
     }
     let l = Vector::<f64>::linspace(1.0, 3.0, 5); if l[0] != 1.0 || (l[4] - 3.0).abs() > 1e-12 || (0..4).any(|i| l[i] >= l[i + 1]) { report(out, "C15 linspace starts at a, ends at b, monotone", "linspace(1,3,5)".into(), format!("{:?}", l), "[1, 1.5, 2, 2.5, 3]".into()); }
 }
+fn c16_sizes(out: &mut Out) {
+    for a in 0..8usize { for b in 0..8usize { if a == b { continue; } case();
+        let (va, vb) = (Vec64::create(vec![1.0; a]), Vec64::create(vec![2.0; b]));
+        if quiet(|| va.dot_f64(&vb)).is_ok() { report(out, "C16 dot_f64 rejects operands of different lengths (as dot does)", format!("lengths {} and {}", a, b), "returned a value".into(), "panic".into()); }
+    } }
+}
 fn c16(_rng: &mut Rng, out: &mut Out) {
+    c16_sizes(out);
     // increasing lengths, then short and empty vectors again AFTER long ones (per-thread scratch must not leak between calls)
     for n in (0..=200usize).chain([1000, 4099, 0, 1, 2, 3, 5, 7, 15, 16, 17, 0, 31, 4099, 0]) { case();
         let a: Vec<f64> = (0..n).map(|i| ((i * 7 + 3) % 11) as f64 - 5.0).collect(); let b: Vec<f64> = (0..n).map(|i| ((i * 5 + 1) % 13) as f64 - 6.0).collect();
@@ -874,6 +918,16 @@ fn c18(rng: &mut Rng, out: &mut Out) {
             Err(e) => report(out, "C18 jacobian_cmplx panicked", ctx, e, format!("{}x{}", m, n)),
         }
     } } }
+    { // complex map with cross terms on dyadic data: forward quotients at the base point, one coordinate perturbed at a time
+      let pts: RefCell<Vec<Vec<(f64, f64)>>> = RefCell::new(vec![]);
+      let h = |z: Vector<Cmplx>| { pts.borrow_mut().push((0..3).map(|i| (z[i].real, z[i].imag)).collect()); Vector::create(vec![z[0] * z[1], z[0] * z[0] + z[2], z[1] * z[2]]) };
+      let base = vec![Cmplx::new(1.5, 0.5), Cmplx::new(-0.5, 2.0), Cmplx::new(2.0, -1.0)]; let dl = 0.0625;
+      match quiet(|| Matrix::<Cmplx>::jacobian_cmplx(Vector::create(base.clone()), &h, dl)) {
+          Ok(j) => { let f0 = vec![base[0] * base[1], base[0] * base[0] + base[2], base[1] * base[2]];
+              for c in 0..3 { let mut p = base.clone(); p[c] = p[c] + Cmplx::new(dl, 0.0); let f1 = vec![p[0] * p[1], p[0] * p[0] + p[2], p[1] * p[2]];
+                  for r in 0..3 { let e = (f1[r] - f0[r]) / dl; if (j[(r, c)] - e).abs() > 1e-12 { report(out, "C18 complex Jacobian entries are forward difference quotients at the base point", format!("f=(z0 z1, z0^2+z2, z1 z2) at {:?} delta={}", base.iter().map(|z| (z.real, z.imag)).collect::<Vec<_>>(), dl), format!("J[{},{}]=({}, {})", r, c, j[(r, c)].real, j[(r, c)].imag), format!("({}, {})", e.real, e.imag)); } } }
+              let ps = pts.borrow(); for (k, x) in ps.iter().enumerate().skip(1) { for t in 0..3 { let e = if t == k - 1 { base[t].real + dl } else { base[t].real }; if x[t].0 != e || x[t].1 != base[t].imag { report(out, "C18 complex: each coordinate is restored before the next is perturbed", format!("evaluation {} coordinate {}", k, t), format!("{:?}", x[t]), format!("({}, {})", e, base[t].imag)); } } } }
+          Err(e) => report(out, "C18 jacobian_cmplx panicked", "nonlinear 3x3 map".into(), e, "a matrix".into()) } }
     let g = |x: Vec64| Vec64::create(vec![x[0] * x[1], x[1] * x[2] + x[0] * x[2]]);
     let j = Mat64::jacobian(Vec64::create(vec![2.0, 0.0, 0.0]), &g, 0.0625);
     if j[(0, 1)] != 2.0 || j[(1, 2)] != 2.0 { report(out, "C18 entries are forward difference quotients at the unperturbed other coordinates", "f=(x0*x1, x1*x2+x0*x2) at (2,0,0) delta=1/16".into(), format!("J[0,1]={} J[1,2]={}", j[(0, 1)], j[(1, 2)]), "2, 2".into()); }
@@ -1003,6 +1057,19 @@ fn c20(rng: &mut Rng, out: &mut Out) {
         if coeffs_of(&pa) != a || coeffs_of(&pb) != b { report(out, "C20 operands taken by reference are unchanged", ctx, "changed".into(), "unchanged".into()); }
         let n = 1 + rng.below(3) as usize; let (m1, m2) = (rand_m(rng, n, n), rand_m(rng, n, n)); let (x, y) = (to_matrix(&m1), to_matrix(&m2));
         if from_matrix(&(&x + &y)) != from_matrix(&(x.clone() + y.clone())) || from_matrix(&(&x * &y)) != from_matrix(&(x.clone() * y.clone())) || from_matrix(&x) != m1 { report(out, "C20 consuming Matrix operators equal the borrowed ones, operands unchanged", mq(&m1), "differs".into(), "same".into()); }
+        { // the same over Complex<f64> with non-dyadic entries: consuming and borrowing forms agree bit for bit
+          let cz = |rng: &mut Rng| Cmplx::new(rng.int(-9, 9) as f64 * 0.1, rng.int(-9, 9) as f64 * 0.1);
+          let mut mc = Matrix::<Cmplx>::new(n, n, Cmplx::new(0.0, 0.0)); let mut nc = Matrix::<Cmplx>::new(n, n, Cmplx::new(0.0, 0.0));
+          for i in 0..n { for j in 0..n { mc[(i, j)] = cz(rng); nc[(i, j)] = cz(rng); } }
+          let k = cz(rng);
+          let same = |a: &Matrix<Cmplx>, b: &Matrix<Cmplx>| (0..n).all(|i| (0..n).all(|j| a[(i, j)].real.to_bits() == b[(i, j)].real.to_bits() && a[(i, j)].imag.to_bits() == b[(i, j)].imag.to_bits()));
+          let cctx = format!("n={} scalar=({}, {})", n, k.real, k.imag);
+          if !same(&(&mc * k), &(mc.clone() * k)) { report(out, "C20 consuming Matrix<Cmplx> * scalar equals the borrowing form bit for bit", cctx.clone(), "differs".into(), "identical".into()); }
+          if k.abs() > 0.0 && !same(&(&mc / k), &(mc.clone() / k)) { report(out, "C20 consuming Matrix<Cmplx> / scalar equals the borrowing form bit for bit", cctx.clone(), "differs".into(), "identical".into()); }
+          if !same(&(&mc + &nc), &(mc.clone() + nc.clone())) || !same(&(&mc - &nc), &(mc.clone() - nc.clone())) || !same(&(&mc * &nc), &(mc.clone() * nc.clone())) { report(out, "C20 consuming Matrix<Cmplx> + - * equal the borrowing forms bit for bit", cctx.clone(), "differs".into(), "identical".into()); }
+          let vc = Vector::<Cmplx>::create((0..n).map(|_| cz(rng)).collect()); let wc = Vector::<Cmplx>::create((0..n).map(|_| cz(rng)).collect());
+          let vsame = |a: &Vector<Cmplx>, b: &Vector<Cmplx>| (0..n).all(|i| a[i].real.to_bits() == b[i].real.to_bits() && a[i].imag.to_bits() == b[i].imag.to_bits());
+          if !vsame(&(&vc + &wc), &(vc.clone() + wc.clone())) || !vsame(&(&vc - &wc), &(vc.clone() - wc.clone())) || !vsame(&(vc.clone() * k), &{ let mut t = vc.clone(); t *= k; t }) { report(out, "C20 consuming / in-place Vector<Cmplx> operators equal the borrowing forms bit for bit", cctx, "differs".into(), "identical".into()); } }
         let mut cl = x.clone(); cl[(0, 0)] = cl[(0, 0)] + Q::int(1); if from_matrix(&x) != m1 { report(out, "C20 a clone is independent of its original", mq(&m1), "original changed".into(), "unchanged".into()); }
     }
 }
